@@ -160,7 +160,10 @@ PROPS = {
             'addition bitmap and open-type wrapping produced by the real Scope / with_buffer code equal the X.691 19 layout for any shape',
             'the spec functions in contracts/prelude/x691.rs are a transcription of X.691 (08/2015) by hand: they ARE the oracle and are trusted; a second, executable transcription (replay/src/oracle.rs) is compared with the real code on every run',
             'unit uper (Verus): the type-level rules of write_boolean / write_null / write_number (x691_integer: 13.1 extension bit, 13.2.2 constrained, 13.2.4 unconstrained) / write_octet_string / write_bit_string / write_enumerated are post-conditions of the real Writer impl for every constraint instantiation',
-            'NOT PROVED, bounded stand-in only: the remaining type-level rules (CHOICE, SEQUENCE OF, character strings at the API level) and the constants emitted by walker.rs (MIN/MAX/EXTENSIBLE/STD_OPTIONAL_FIELDS/...)',
+            'unit uper, COMPOSITIONAL: the trait WritableType carries a spec function x_enc (the X.691 encoding of a value outside a SEQUENCE scope) and the contract `scope is None && Ok && x_ok(v) ==> appended bits == x_enc(v)`; '
+            'the real descriptor impls Boolean, NullT, Integer, OctetString, Enumerated, Option<T>, DefaultValue<T, C>, SequenceOf<T, C> (length part ++ concatenation of the element encodings, loop invariant over the real for loop) are verified against it, '
+            'so the encoding of every type built from these descriptors by arbitrary nesting is proved bit-exact (below the 16K fragmentation threshold of the known findings). Sequence<C>, Choice<C>, Utf8String have x_ok == false (not described compositionally)',
+            'NOT PROVED, bounded stand-in only: the type-level rules of CHOICE and the character strings at the API level, and the constants emitted by walker.rs (MIN/MAX/EXTENSIBLE/STD_OPTIONAL_FIELDS/...)',
         ],
         'trusted_base': COMMON_TRUSTED + PER_TRUSTED + KANI_TRUSTED,
         'not_under_contract': UPER_NOT + ['constraint constants emitted by walker.rs'],
